@@ -111,8 +111,8 @@ def run(ctx):
                 "14-atom near-boundary alphabet incl. CR, LF, dashes, delimiter prefixes, boundary text not at a line start, NUL, CRLFCRLF; optional preamble / epilogue; CRLF or LF structure; LWS after delimiters), minus draws whose data "
                 "would contain a real delimiter; chunkings: whole, EVERY single cut, one byte per call, 3 random multi-cuts; through the parser directly and (a third of the cuts) a full POST; distinct = (document, route, chunking)" % n_docs,
         "content_disposition_rows": ct, "boundary_rows": bt, "header_block_rows": ht,
-        "header_block_rule": "every one-line block of <= %d atoms and every two-line block of <= %d atoms per line out of 14 (A a b : SP TAB NUL ( VT Content-Type content-disposition form-data ; -) + every block of <= %d whole lines out of 17 (valid fields, same name in other case, known names, continuations, broken lines) + random blocks of 1..4 lines, "
-                             "each delivered whole, one byte per call and cut in the middle: the part's header table and NUL_BYTE / PART_HEADER_INVALID / _UNKNOWN / _REPEATED / _FOLDING = spec/MpartHdr.tla" % (h1, h2, 3 if q else 4),
+        "header_block_rule": "every one-line block of <= %d atoms and every two-line block of <= %d atoms per line out of 14 (A a b : SP TAB NUL ( VT Content-Type content-disposition form-data ; -) + every block of <= %d whole lines out of 19 (valid fields, same name in other case, known names, continuations, broken lines) + random blocks of 1..4 lines, "
+                             "each delivered whole, one byte per call and cut in the middle: the part's header table, its media type and NUL_BYTE / PART_HEADER_INVALID / _UNKNOWN / _REPEATED / _FOLDING = spec/MpartHdr.tla" % (h1, h2, 3 if q else 4),
         "boundary_rule": "every Content-Type value built from <= %d atoms of 17 (three spellings of the type, boundary / Boundary / BOUNDARY, = quote BB 'a b' x'y ; , SP TAB # charset=x) + random decorated well-formed values "
                          "(boundaries of 70 / 71 characters, browser-style boundaries, trailing parameters, second boundary): OK / DECLINED, the boundary, HBOUNDARY_INVALID / _UNUSUAL = spec/MpartBoundary.tla" % ca,
         "content_disposition_rule": "5 prefixes x every sequence of <= %d atoms from {; SP name filename nam = quote escaped-quote escaped-backslash backslash a 'x y' TAB} + random lists of whole parameters: "
